@@ -26,7 +26,9 @@ CONSTANTS Track,           \* BOOLEAN: maintain lastAct/depth (replay emission);
           W,               \* number of workers
           MaxTail,         \* largest ResumeVerifyTail explored
           EndChecksResend, \* BOOLEAN, see above
-          VerifyAfterEnd   \* BOOLEAN, see above
+          VerifyAfterEnd,  \* BOOLEAN, see above
+          Wide             \* BOOLEAN: instead of every bitmap of up to MaxN chunks, a family of bitmaps over 8 and 16 chunks
+                           \* (whole bitmap bytes: used with the constraint DepthOne to enumerate inputs for the end-to-end runs)
 
 Workers == 1..W
 NONE == -1
@@ -89,9 +91,13 @@ VerifyNeeded == verifyOn /\ V < n /\ ~HU
 Skippable(i) == i \in bits /\ i < ForceFrom
 
 \* ---- initial states --------------------------------------------------------
+\* bitmaps over a wide file: nothing, everything, all but the last, the last four, all but the last four,
+\* all but the last eight, every other chunk, the first half, one hole in the last byte
+Family(k) == { {}, 0..(k-1), 0..(k-2), (k-4)..(k-1), 0..(k-5), 0..(k-9), {i \in 0..(k-1) : i % 2 = 0}, 0..(k \div 2), (0..(k-1)) \ {k-3} }
+
 Init ==
-  /\ n \in 0..MaxN
-  /\ bits \in SUBSET (0..(n-1))
+  /\ n \in (IF Wide THEN {8, 16} ELSE 0..MaxN)
+  /\ bits \in (IF Wide THEN Family(n) ELSE SUBSET (0..(n-1)))
   /\ tail \in 0..MaxTail
   /\ hashUnknown \in BOOLEAN
   /\ (hashUnknown => bits # {})
